@@ -30,7 +30,7 @@ RULE = ("cases drawn from one seeded stream: total dimension n in 1..6 split int
         "default-constructed, other component count, larger, smaller and quaternion objects. 20% of the predict cases and all propagate cases "
         "carry skip flags so that every branch of LinearStateModel::propagate and both early returns are exercised; sequences drive ONE "
         "object through 2-4 calls (matrices set / time-varying / exogenous model attached / object move-assigned from a used donor of "
-        "possibly another dimension / move-constructed, flags and layouts per call). 30% of the cases run with callback re-entrancy: an "
+        "possibly another dimension / move-constructed, flags and layouts per call). 12% of the exogenous predict/propagate cases and 10% of the sequences make the exogenous contribution NaN / +inf / -inf for SOME entries (entries of c, or products of 1e307-sized entries of B with the 100..1000-sized means of some components overflowing, all other components below 0.01 so that every class is independent of the summation order): non-finite entries are compared by class, finite ones as usual. 30% of the cases run with callback re-entrancy: an "
         "independent twin KFPrediction with an exogenous input predicts inside every callback of the subject's models. non-trivial = "
         "components >= 2 or exogenous model or singular P/Q or any flag or circular/noise rows or a foreign output object; distinct by "
         "(kind, n, comps, exo, F kind, rank Q, min rank P, flags, circular>0, noise>0, output-object class)")
@@ -118,7 +118,41 @@ def units(rng, n):
     return L, D
 
 
-def problem(rng, n, k, have_exo, L, D, keep=None):
+def hit_columns(rng, n, k, positive=False):
+    """n x k means: some, not all, of the columns (all of one) with entries in [100, 1000), the others below 0.01."""
+    hit = rng.sample(range(k), rng.randint(1, max(1, k - 1)))
+    X = np.zeros((n, k))
+    for j in range(k):
+        for i in range(n):
+            X[i, j] = rng.uniform(100.0, 1000.0) * (1.0 if positive else rng.choice([-1.0, 1.0])) if j in hit else rng.uniform(-0.01, 0.01)
+    return X
+
+
+def nonfinite_exo(rng, n, k, B, cc, means):
+    """Makes the exogenous contribution u = B X + c 1^T non-finite for SOME entries only, all operands of the step being
+    ordinary doubles except (mode c-entry) one or two entries of c: rows of B carry entries of magnitude 1e307..9e307; the
+    columns of X chosen to be hit have entries in [100, 1000) (the products overflow to +-inf; two of opposite sign give
+    NaN), the other columns entries below 0.01 (every product <= 9e305, every partial sum finite, in any summation
+    order).  The class (finite / NaN / +inf / -inf) of every entry is therefore the same for every order of evaluation.
+    Returns (B, c, means, mode)."""
+    B, cc, means = B.copy(), cc.copy(), means.copy()
+    mode = rng.choice(["c-entry", "overflow-entry", "overflow-nan", "overflow-column"])
+    if mode == "c-entry":
+        for r in rng.sample(range(n), 1 if n < 3 else rng.randint(1, 2)):
+            cc[r, 0] = rng.choice([float("nan"), float("inf"), float("-inf")])
+        return B, cc, means, mode
+    means = hit_columns(rng, n, k, mode == "overflow-nan")
+    rows = list(range(n)) if mode == "overflow-column" else rng.sample(range(n), 1 if n < 3 else rng.randint(1, 2))
+    for r in rows:
+        p = rng.randrange(n)
+        B[r, p] = rng.choice([-1.0, 1.0]) * rng.uniform(1.0, 9.0) * 1e307
+        if mode == "overflow-nan" and n >= 2:
+            p2 = rng.choice([x for x in range(n) if x != p])
+            B[r, p2] = -np.sign(B[r, p]) * rng.uniform(1.0, 9.0) * 1e307
+    return B, cc, means, mode
+
+
+def problem(rng, n, k, have_exo, L, D, keep=None, nonfinite=False):
     """The numeric data of one call in the units (L, D): F, Q, [B, c], means (n x k), covs [k of n x n].
     keep = (F, Q, B, c, fkind, rq): the live model still holds these."""
     if keep is None:
@@ -156,7 +190,15 @@ def problem(rng, n, k, have_exo, L, D, keep=None):
         if rng.random() < 0.2:
             P = P * p10(rng, -6, 6)                     # per component
         covs.append(sym((L * L * sP) * (D[:, None] * P * D[None, :])))
-    return dict(F=F, Q=Q, B=B, c=cc, means=means, covs=covs, fkind=fkind, rq=rq, rpmin=rmin)
+    nf = "-"
+    if nonfinite and B is not None:
+        if keep is None:
+            B, cc, means, nf = nonfinite_exo(rng, n, k, B, cc, means)
+        elif np.max(np.abs(B)) > 1e300:      # the live model still holds a B with huge entries: keep the classes order-independent
+            means, nf = hit_columns(rng, n, k), "overflow-kept"
+        elif not np.all(np.isfinite(cc)):
+            nf = "c-entry-kept"
+    return dict(F=F, Q=Q, B=B, c=cc, means=means, covs=covs, fkind=fkind, rq=rq, rpmin=rmin, nf=nf)
 
 
 # ---------------------------------------------------------------------------------------------- layouts
@@ -258,11 +300,12 @@ def _generate(rng, npred, nprop, nseq):
         n = rng.randint(1, 6); k = rng.randint(1, 4)
         have_exo = rng.random() < 0.5
         sp, ss, se = flags(rng, have_exo, kind == "propagate")
-        L, D = units(rng, n)
-        pr = problem(rng, n, k, have_exo, L, D)
+        nonfinite = have_exo and rng.random() < 0.12      # the exogenous contribution of some entries is NaN / +-inf
+        L, D = (1.0, np.ones(n)) if nonfinite else units(rng, n)
+        pr = problem(rng, n, k, have_exo, L, D, nonfinite=nonfinite)
         intrude = 1 if rng.random() < 0.3 else 0     # callback re-entrancy: a twin prediction runs inside every model callback
         meta = {"n": n, "comps": k, "exo": int(have_exo), "fkind": pr["fkind"], "rankQ": pr["rq"], "sp": sp, "ss": ss, "se": se,
-                "intrude": intrude, "L": "%.3g" % L, "Dspan": "%.3g" % (D.max() / D.min())}
+                "intrude": intrude, "L": "%.3g" % L, "Dspan": "%.3g" % (D.max() / D.min()), "nf": pr["nf"]}
         c = caseio.Case(kk, kind, meta)
         if kind == "predict":
             m = put_call(c, rng, None, pr, k, n, sp, ss, se, L * float(D.max()))
@@ -283,8 +326,9 @@ def sequence_case(rng, cid):
     """One KFPrediction object, 2-4 predicts; the live model's F, Q (and B, c) at each call are those of the step."""
     n = rng.randint(1, 5); nsteps = rng.randint(2, 4)
     have_exo = rng.random() < 0.5
-    L, D = units(rng, n)
-    hows, ns, ks, fl, ocl, circ = [], [], [], [], [], []
+    nonfinite = rng.random() < 0.1            # steps with an exogenous model may get a partly non-finite contribution
+    L, D = (1.0, np.ones(n)) if nonfinite else units(rng, n)
+    hows, ns, ks, fl, ocl, circ, nfs = [], [], [], [], [], [], []
     c = caseio.Case(cid, "sequence", {})
     c.int("nsteps", nsteps)
     keep = None
@@ -296,7 +340,7 @@ def sequence_case(rng, cid):
             new_exo = have_exo
         if h == "moveassign" and rng.random() < 0.4:          # the donor's model has another state dimension
             n = rng.randint(1, 5)
-            L, D = units(rng, n)
+            L, D = (1.0, np.ones(n)) if nonfinite else units(rng, n)
             keep = None
         if h in ("same", "movector") and keep is not None:
             pass                                               # the live model still holds the previous matrices
@@ -308,7 +352,8 @@ def sequence_case(rng, cid):
             keep = None
         have_exo = new_exo
         k = rng.randint(1, 4)
-        pr = problem(rng, n, k, have_exo, L, D, keep)
+        pr = problem(rng, n, k, have_exo, L, D, keep, nonfinite=nonfinite and (keep is not None or rng.random() < 0.7))
+        nfs.append(pr["nf"])
         if keep is None and s_ > 0 and h in ("set", "time", "movector+set") and old is not None and rng.random() < 0.25:
             # only one of the two matrices changes
             if rng.random() < 0.5:
@@ -323,7 +368,7 @@ def sequence_case(rng, cid):
     c.meta.update({"n": ns[0], "comps": max(ks), "exo": int(c.has("B_0")), "fkind": "seq", "rankQ": ns[0], "sp": 0, "ss": 0, "se": 0,
                    "nsteps": nsteps, "hows": ",".join(hows), "dims": ",".join(map(str, ns)), "flags": ",".join(fl),
                    "oclasses": ",".join(ocl), "circ": max(circ), "intrude": 1 if rng.random() < 0.3 else 0,
-                   "L": "%.3g" % L, "Dspan": "%.3g" % (D.max() / D.min())})
+                   "L": "%.3g" % L, "Dspan": "%.3g" % (D.max() / D.min()), "nf": ",".join(nfs)})
     return c
 
 
@@ -370,28 +415,52 @@ def nontrivial(c):
     rp = int(m.get("rankPmin", n))
     circ, noise, ocl = int(m.get("circ", 0)) > 0, int(m.get("noise", 0)) > 0, m.get("oclass", "same")
     if k >= 2 or int(m["exo"]) or int(m["rankQ"]) < n or rp < n or any(fl) or circ or noise or ocl != "same":
-        return (c.kind, n, k, int(m["exo"]), m["fkind"], int(m["rankQ"]), rp, fl, circ, noise, ocl)
+        return (c.kind, n, k, int(m["exo"]), m["fkind"], int(m["rankQ"]), rp, fl, circ, noise, ocl, m.get("nf", "-"))
     return None
 
 
 # ---------------------------------------------------------------------------------------------- tolerances
-def _within(a, b, tol):
-    """|a - b| <= tol componentwise (same shape, finite)."""
+def _within(a, b, tol, amb=None):
+    """a agrees with the reference b: where b is finite, a is finite and |a - b| <= tol; where b is NaN / +inf / -inf
+    (IEEE arithmetic propagated through a partly non-finite exogenous contribution), a is of the same class - except at
+    the entries marked in amb (exo_ambiguous), where any non-finite value is as good as another."""
     if a is None or b is None:
         return False
     a, b = np.asarray(a, dtype=float), np.asarray(b, dtype=float)
     if a.shape != b.shape or a.shape != np.shape(tol):
         return False
-    with np.errstate(invalid="ignore"):
-        return bool(np.all(np.abs(a - b) <= tol))
+    with np.errstate(all="ignore"):
+        fin = np.isfinite(b)
+        ok_fin = np.isfinite(a) & (np.abs(a - b) <= tol)
+        ok_cls = (np.isnan(a) & np.isnan(b)) | (a == b)
+        if amb is not None:
+            ok_cls = ok_cls | (amb & ~np.isfinite(a))
+        return bool(np.all(np.where(fin, ok_fin, ok_cls)))
 
 
-def _excess(a, b, tol):
-    """max over the entries of |a - b| / tol (for the message)."""
+def _excess(a, b, tol, amb=None):
+    """max over the entries of |a - b| / tol (for the message); inf for an entry of the wrong class."""
     if a is None or b is None or np.shape(a) != np.shape(b) or np.shape(a) != np.shape(tol):
         return float("nan")
-    with np.errstate(invalid="ignore", divide="ignore"):
-        return float(np.nanmax(np.abs(np.asarray(a) - np.asarray(b)) / tol))
+    a, b = np.asarray(a, dtype=float), np.asarray(b, dtype=float)
+    with np.errstate(all="ignore"):
+        fin = np.isfinite(b)
+        cls = (np.isnan(a) & np.isnan(b)) | (a == b)
+        if amb is not None:
+            cls = cls | (amb & ~np.isfinite(a))
+        r = np.where(fin, np.where(np.isfinite(a), np.abs(a - b) / tol, np.inf), np.where(cls, 0.0, np.inf))
+        return float(np.max(r)) if r.size else 0.0
+
+
+def exo_ambiguous(B, X):
+    """Entries (i, j) of B X whose class is not determined by IEEE arithmetic alone: products of both signs overflow, so
+    the sum is NaN when every product is rounded (inf - inf) but +-inf when a fused multiply-add keeps one of them exact,
+    and which one depends on the order.  Every evaluation gives a non-finite value there; no class is demanded."""
+    if B is None:
+        return None
+    with np.errstate(all="ignore"):
+        prod = B[:, :, None] * X[None, :, :]
+        return np.any(prod == np.inf, axis=1) & np.any(prod == -np.inf, axis=1)
 
 
 def mean_bound(F, X, B, cc):
@@ -399,10 +468,11 @@ def mean_bound(F, X, B, cc):
     two such evaluations compared: |fl - exact| <= (n+3) u (|F||X| + |B||X| + |c|) each.  The bound scales with the
     units of the case (x -> L D x multiplies row i by L D_i), so no conditioning factor is needed."""
     n = F.shape[0]
-    T = np.abs(F) @ np.abs(X)
-    if B is not None:
-        T = T + np.abs(B) @ np.abs(X) + np.abs(cc) @ np.ones((1, X.shape[1]))
-    return 8 * (n + 3) * U * T + TINY
+    with np.errstate(all="ignore"):       # a partly non-finite exogenous contribution: the bound is inf / NaN exactly there
+        T = np.abs(F) @ np.abs(X)
+        if B is not None:
+            T = T + np.abs(B) @ np.abs(X) + np.abs(cc) @ np.ones((1, X.shape[1]))
+        return 8 * (n + 3) * U * T + TINY
 
 
 def cov_bound(F, P, Q):
@@ -446,6 +516,11 @@ def compare(c, impl, model):
 def _prop_expect(F, exo, ss, se, cur, old, B, cc):
     """(expected value, componentwise tolerance) of LinearStateModel::propagate."""
     one = np.ones((1, cur.shape[1]))
+    with np.errstate(all="ignore"):
+        return _prop_expect_(F, exo, ss, se, cur, old, B, cc, one)
+
+
+def _prop_expect_(F, exo, ss, se, cur, old, B, cc, one):
     if exo:
         if ss and se:
             return cur, np.zeros_like(cur)
@@ -463,8 +538,9 @@ def _compare_propagate(c, impl, model):
     exo = c.has("B")
     ss, se = int(c.meta["ss"]), int(c.meta["se"])
     _, tol = _prop_expect(F, exo, ss, se, cur, old, c.get("B") if exo else None, c.get("c") if exo else None)
-    if not _within(impl.get("prop"), model.get("prop"), tol):
-        d.append("prop: |impl-model| exceeds the componentwise bound %.3g times" % _excess(impl.get("prop"), model.get("prop"), tol))
+    amb = exo_ambiguous(c.get("B"), cur) if (exo and not se) else None
+    if not _within(impl.get("prop"), model.get("prop"), tol, amb):
+        d.append("prop: |impl-model| exceeds the componentwise bound %.3g times" % _excess(impl.get("prop"), model.get("prop"), tol, amb))
     exp = 1 if (exo and not se) else 0
     if impl.get("exo_calls") != exp:
         d.append("exo_calls: impl=%s model=%d" % (impl.get("exo_calls"), exp))
@@ -493,8 +569,9 @@ def _compare_predict(v, impl, model, check_exo_calls=True):
     covs = v.get("covs")
     active = v.exo and not v.se
     tm = np.zeros_like(X) if skipped else mean_bound(F, X, v.get("B") if active else None, v.get("c") if active else None)
-    if not _within(impl.get("means"), model.get("means"), tm):
-        d.append("means: |impl-model| exceeds the componentwise bound %.3g times" % _excess(impl.get("means"), model.get("means"), tm))
+    amb = exo_ambiguous(v.get("B"), X) if (active and not skipped) else None
+    if not _within(impl.get("means"), model.get("means"), tm, amb):
+        d.append("means: |impl-model| exceeds the componentwise bound %.3g times" % _excess(impl.get("means"), model.get("means"), tm, amb))
     for i in range(v.k):
         P = covs[:, i * v.n:(i + 1) * v.n]
         tc = np.zeros_like(P) if skipped else cov_bound(F, P, Q)
@@ -533,9 +610,15 @@ def _oracle_propagate(c, impl):
     if impl.get("input_unchanged") != 1:
         v.append(("C02:input-modified:propagate", "cur_states was modified"))
     exp, tol = _prop_expect(F, exo, ss, se, cur, old, c.get("B") if exo else None, c.get("c") if exo else None)
-    if not _within(impl.get("prop"), exp, tol):
-        v.append(("C02:propagate-branch:exo=%d:ss=%d:se=%d" % (exo, ss, se),
-                  "the propagated states differ from the branch's formula by %.3g times the componentwise rounding bound" % _excess(impl.get("prop"), exp, tol)))
+    amb = exo_ambiguous(c.get("B"), cur) if (exo and not se) else None
+    if not _within(impl.get("prop"), exp, tol, amb):
+        got, nf = impl.get("prop"), not np.all(np.isfinite(exp))
+        # independence: a column whose own F x + u is finite has that value, whatever the other columns' u is
+        lost = [j for j in range(exp.shape[1]) if np.all(np.isfinite(exp[:, j])) and not _within(got[:, j:j + 1], exp[:, j:j + 1], tol[:, j:j + 1])] \
+            if (nf and got is not None and np.shape(got) == exp.shape) else []
+        v.append(("C02:propagate-branch:exo=%d:ss=%d:se=%d%s" % (exo, ss, se, ":exogenous-partly-nonfinite" if nf else ""),
+                  "the propagated states differ from the branch's formula by %.3g times the componentwise rounding bound%s"
+                  % (_excess(got, exp, tol, amb), ("; columns %s have a finite F x + u of their own and did not get it (the exogenous contribution of another column is not finite)" % lost) if lost else "")))
     return v
 
 
@@ -576,23 +659,32 @@ def _oracle_predict(c, impl, model):
         return v
     active = exo and not se
     B, cc = (c.get("B"), c.get("c")) if active else (None, None)
-    Um = B @ means + cc @ np.ones((1, k)) if active else np.zeros_like(means)
+    with np.errstate(all="ignore"):
+        Um = B @ means + cc @ np.ones((1, k)) if active else np.zeros_like(means)
     tag = "exo" if active else ("exo-skipped" if exo else "noexo")
+    if not np.all(np.isfinite(Um)):
+        # the exogenous contribution of some entries is NaN / +-inf: those entries propagate by IEEE arithmetic, every
+        # component (and entry) whose own u is finite must have exactly the value it would have alone
+        tag += ":exogenous-partly-nonfinite"
     tm = mean_bound(F, means, B, cc)
+    amb = exo_ambiguous(B, means)
     im = impl.get("means")
     for i in range(k):
         P = covs[:, i * n:(i + 1) * n]
         mi, Pi = im[:, i:i + 1], impl.get("cov%d" % i)
-        em = F @ means[:, i:i + 1] + Um[:, i:i + 1]
+        with np.errstate(all="ignore"):
+            em = F @ means[:, i:i + 1] + Um[:, i:i + 1]
         eP = F @ P @ F.T + Q
         tc = cov_bound(F, P, Q)
-        if not _within(mi, em, tm[:, i:i + 1]):
-            v.append(("C02:mean-not-Fm+u:%s" % tag, "component %d: off by %.3g times the componentwise rounding bound" % (i, _excess(mi, em, tm[:, i:i + 1]))))
+        ai = amb[:, i:i + 1] if amb is not None else None
+        if not _within(mi, em, tm[:, i:i + 1], ai):
+            v.append(("C02:mean-not-Fm+u:%s" % tag, "component %d: off by %.3g times the componentwise rounding bound%s" % (i, _excess(mi, em, tm[:, i:i + 1], ai),
+                      " (its own F m + u is finite: components must not influence one another)" if (np.all(np.isfinite(em)) and not np.all(np.isfinite(Um))) else "")))
         if not _within(Pi, eP, tc):
             v.append(("C02:cov-not-FPFt+Q", "component %d: off by %.3g times the componentwise rounding bound" % (i, _excess(Pi, eP, tc))))
         if model is not None and se == 0:
             sm, sP = model.get("spec_mean%d" % i), model.get("spec_cov%d" % i)
-            if sm is not None and not _within(mi, sm, tm[:, i:i + 1]):
+            if sm is not None and not _within(mi, sm, tm[:, i:i + 1], ai):
                 v.append(("C02:mean-not-Fm+u:%s" % tag, "component %d vs extracted spec: off by %.3g times the bound" % (i, _excess(mi, sm, tm[:, i:i + 1]))))
             if sP is not None and not _within(Pi, sP, tc):
                 v.append(("C02:cov-not-FPFt+Q", "component %d vs extracted spec: off by %.3g times the bound" % (i, _excess(Pi, sP, tc))))
